@@ -223,7 +223,7 @@ pub fn run(cfg: &Cfg) -> Report {
     let mut report = Report::new(cfg);
     let seed = cfg.seed;
     let mut uni = three_d::universe(cfg.tier.pick(3, 4));
-    uni.extend(three_d::sampled_larger(seed, &[5, 6], cfg.tier.pick(1, 3), cfg.tier.pick(1500, 10000)));
+    uni.extend(three_d::sampled_larger(seed, &[5, 6], cfg.tier.pick(1, 3), cfg.tier.pick(1500, 30000)));
     let reps = cfg.tier.pick(3, 5);
     let ctx = par_items(cfg, &uni, |ctx, k, m| {
         let mut rng = Rng::stream(seed, 0x17_0000 + k as u64);
